@@ -28,7 +28,7 @@ T = {
          'trusted: history bookkeeping; next_id generated only inside its documented domain (an absent id at or above the allocator position remains)',
          'stateful property testing; oracle = invariant over the history of returned ids'),
  'C06': ('cycles', 'exploration',
-         'Long generated histories of hundreds to thousands of create-fill-read cycles over a rotating id window with 0..13 long-lived groups and overlapping cycles; the alive set is compared with the reference model after every call, so a slot that is not handed back or handed back while referenced shows as soon as the 14 slots wrap.',
+         'Long generated histories of hundreds to thousands of create-fill-read cycles over a rotating id window with 0..13 long-lived groups and overlapping cycles; the alive set is compared with the reference model after every call, so a slot that is not handed back or handed back while referenced shows as soon as the 14 slots wrap. One case in 4 also runs the cycles through one re-deployed Script object (id-agnostic oracle).',
          'trusted: reference model; bounds: quick 40..300 cycles per history, thorough up to 3000; capacities 8..256',
          'model-based stateful property testing with a structured (cycle/scheduler) generator'),
  'C07': ('asan-seq', 'exploration',
@@ -40,7 +40,7 @@ T = {
          'trusted: the interpreter; the comparison is implementation vs implementation; allocator-dependent calls are generated only when the one permitted difference (allocator restart) cannot show',
          'differential (round-trip twin) stateful property testing with proptest-generated histories and continuations'),
  'C09': ('prefixes', 'fault_enumeration',
-         'Every cut point of the image of generated graphs is enumerated (all of them in thorough; all for images <= 4096 bytes in quick) and load() must return Err on each; the complete image must load (control). Plus bounded-exhaustive dimension sweeps (capacity, id, alpha index, byte values, datum length, group shape, edge count, label character) on a fixed scenario under the same oracle.',
+         'Every cut point of the image of generated graphs is enumerated (all of them in thorough; all for images <= 4096 bytes in quick) and load() must return Err on each; the complete image must load (control). Plus bounded-exhaustive dimension sweeps (capacity, id, alpha index, byte values, datum length, group shape, edge count, label character) on a fixed scenario under the same oracle. The save path holds an older checkpoint (junk or a valid image) beforehand.',
          'fault model: a crash leaves a byte prefix of the image; load() called with the N used for save()',
          'fault enumeration (every truncation point) over proptest-generated graphs'),
  'C10': ('twin', 'exploration',
@@ -48,11 +48,11 @@ T = {
          'trusted: the interpreter and, for the independence drain, the reference model',
          'differential twin stateful property testing (original vs clone), metamorphic independence check'),
  'C11': ('treegen', 'exploration',
-         'Generated pairs of trees built through the API (random shapes, wide stars, many-group chains, identical/read data on both sides, stores without a spare slot) plus every pair of trees up to 3 (quick) / 4 (thorough) vertices enumerated; the result of merge() is explained path-wise as a graft by an independent walk, compared vertex by vertex with the reference model that performed the equivalent add/bind/put calls, and drained through the epilogue (data bytes, collections).',
+         'Generated pairs of trees built through the API (random shapes, wide stars, many-group chains, identical/read data on both sides, stores without a spare slot) plus every pair of trees up to 3 (quick) / 4 (thorough) vertices enumerated; the result of merge() is explained path-wise as a graft by an independent walk, compared vertex by vertex with the reference model that performed the equivalent add/bind/put calls, and drained through the epilogue (data bytes, collections). Plus a bounded-exhaustive sweep of chain depths 1..=140 / 200.',
          'trusted: reference model and graft() in harness/src/interp.rs; trees <= 8 vertices, labels from a pool of 4; merges that would exceed a limit are skipped and counted',
          'property-based testing over generated tree pairs; oracle = independent path-wise graft + reference model'),
  'C12': ('treegen', 'exploration',
-         'Generated right graphs = tree + unreachable extras (isolated, detached sub-trees, ancestors of `right`); Ok iff no extras, otherwise Err naming every unreachable present vertex.',
+         'Generated right graphs = tree + unreachable extras (isolated, detached sub-trees, ancestors of `right`); Ok iff no extras, otherwise Err naming every unreachable present vertex. Plus a bounded-exhaustive sweep of chain depths 1..=140 / 200 with 0..=3 unreachable extras.',
          'trusted: the generator knows which right vertices are unreachable by construction',
          'property-based testing over generated graph pairs; oracle = reachability by construction'),
  'C13': ('digraph', 'exploration',
